@@ -198,13 +198,13 @@ class Gen:
             return self.assign()
         if k < 0.8:
             self.note('while')
-            c, b = self.cond(), self.block(depth + 1)
+            c, b = self.cond(), self.loop_body(depth + 1)
             if getattr(o, 'loop_twin', False):
                 return self.sugar(f'while ({c}) {b}', f'do {b} while ({c});', kind='loop')
             return f'while ({c}) {b}'
         if k < 0.87:
             self.note('dowhile')
-            return f'do {self.block(depth + 1)} while ({self.cond()});'
+            return f'do {self.loop_body(depth + 1)} while ({self.cond()});'
         # counted for: guard variable must not occur in the body, iterator is fresh
         cands = [v for v in self.vars if v not in self.guards]
         if len(cands) < 3:
@@ -217,6 +217,16 @@ class Gen:
         body = self.block(depth + 1)
         self.guards.pop()
         return f'for ({it} = 0; {it} < {X}; {it}++) {body}'
+
+    def loop_body(self, depth):
+        """a loop body: usually a block, sometimes one unbraced statement (possibly itself a loop)"""
+        if self.rng.random() < 0.15:
+            self.note('unbraced_loop_body')
+            st = self.stmt(depth)
+            if st.startswith('int ') or st.startswith('typedef') or (st[:1] == 'L' and ':' in st[:6]):
+                return '{ ' + st + ' }'
+            return st
+        return self.block(depth)
 
     def block(self, depth, braces=True):
         n = self.rng.randint(1, self.o.max_stmts)
